@@ -1,8 +1,9 @@
 """C17 - registry names and integers correspond one-to-one with the IANA assignments."""
 from lib.prov import Prov, show, is_call, fold
 from lib.guards import outcomes, normalize_bool_cond, cond_variants
-from spec.iana import REGISTRIES, PRIVATE_USE
+from spec.iana import REGISTRIES, PRIVATE_USE, NOT_IN_CRATE, norm_name
 from lib.evalterm import ev, Unknown, consts_in, break_points
+from lib.absint import walk
 
 REGISTER = True
 META = {
@@ -42,6 +43,15 @@ def check_tables(ctx, only=None):
                    where=prog.adts[enum]["span"], detail={"code": ds.get(name), "iana": val},
                    sample={"enum": enum, "name": name, "code": ds.get(name), "iana": val} if name in ("ES256", "Alg") else None)
         new = sorted(set(ds) - set(table))
+        later = NOT_IN_CRATE.get(enum, {})
+        for name in list(new):
+            if norm_name(name) in later:
+                val = later[norm_name(name)]
+                new.remove(name)
+                total += 1
+                ctx.ob("R-1", "%s::%s" % (enum, name), ds.get(name) == val,
+                       "%s::%s = %s (IANA: %d; a name added after the pinned version)" % (enum, name, ds.get(name), val),
+                       where=prog.adts[enum]["span"], detail={"code": ds.get(name), "iana": val})
         if new:
             ctx.note("unverifiable-new-name in %s: %s (not in spec/iana.py; table-independent checks still apply)" % (enum, new))
         vals = list(ds.values())
@@ -99,9 +109,40 @@ def check_tables(ctx, only=None):
             bad.append("no arm for %s" % missing)
         if not none_seen:
             bad.append("no default None")
+        # ... and the arm is REACHED for its integer: the function evaluated on every discriminant and on the integers around
+        # them, the private-use boundary and the 16/32/64-bit edges (an early `return None` for "values no registry assigns",
+        # a narrowing cast before the comparison) - each must arrive at its own arm, everything else at a None
+        undec = False
+        if not bad:
+            outs_ = outcomes(f, pv)
+            some_bb = {}
+            none_bbs = set()
+            for o in outs_:
+                t = o["term"]
+                if t[2] == "None":
+                    none_bbs.add(o["bb"])
+                else:
+                    some_bb[t[3][0][1][2]] = o["bb"]
+            sinks = set(some_bb.values()) | none_bbs
+            by_val = {v: k for k, v in ds.items()}
+            pts = set(break_points(set(ds.values()) | {-65536, 65535, 65536, 2 ** 31, -2 ** 31, 2 ** 32, -2 ** 32, 2 ** 15, -2 ** 15, 255, 256}))
+            pts |= {v + m for v in ds.values() for m in (2 ** 16, -2 ** 16, 2 ** 32, -2 ** 32) if -2 ** 63 <= v + m < 2 ** 63}
+            for x in sorted(pts):
+                reached, und = walk(f, 0, params={1: x}, sinks=sinks)
+                if und or len(reached) != 1:
+                    undec = True
+                    bad.append("from_i64(%d) could not be evaluated" % x)
+                    break
+                want_bb = some_bb[by_val[x]] if x in by_val else None
+                got = next(iter(reached))
+                if want_bb is None and got not in none_bbs:
+                    bad.append("from_i64(%d) is %s, no variant has that value" % (x, [k for k, b in some_bb.items() if b == got]))
+                elif want_bb is not None and got != want_bb:
+                    bad.append("from_i64(%d) does not arrive at %s (%s)" % (x, by_val[x], "None" if got in none_bbs else [k for k, b in some_bb.items() if b == got]))
+            ctx.count("from_i64_points_evaluated", len(pts))
         ctx.ob("R-2", "from_i64:%s" % enum, not bad,
                "%s::from_i64 has exactly one arm `i == discriminant(V) => Some(V)` per variant (%d) and default None" % (enum, len(ds)),
-               where=f.span, detail={"problems": bad[:6]},
+               where=f.span, detail={"problems": bad[:6]}, kind="cannot-decide" if undec else None,
                sample={"enum": enum, "arms": dict(list(arms.items())[:4])} if enum == "iana::KeyType" else None)
         g = prog.fn(tkey)
         rt = Prov(g).return_term()
@@ -334,3 +375,4 @@ def _classify(ctx, key, private):
                "is_private ? PrivateUse(i) : Err(UnregisteredIanaNonPrivateValue)" if private else "Err(UnregisteredIanaValue)"),
            where=f.span, detail={"seen": {k: v for k, v in seen.items()}, "problems": problems},
            sample={"fn": key, "seen": {k: v for k, v in seen.items()}})
+META["decides"] += ' R-2 also evaluates every from_i64 on each discriminant and on the integers around them and around the 16/32-bit edges: each arrives at its own arm, everything else at None (an early return or a narrowing before the comparison is seen). R-1 also checks names added after the pinned version against a supplementary table of IANA assignments (spec/iana.py NOT_IN_CRATE).'
